@@ -1,6 +1,7 @@
 """Contract objects: sidecar specifications bound to functions of the real source by key."""
 from __future__ import annotations
 
+import os
 import time
 import traceback
 
@@ -224,6 +225,9 @@ def verify_case(ident, case_index):
             rec = dict(ident=ob.ident(), name=ob.name, kind=ob.kind, func=ob.func, line=ob.line,
                        status=r["status"], backend=r["backend"], time_s=round(r["time_s"], 4), model=r.get("model"),
                        meta=ob.meta, tried=r.get("tried"))
+            if r["status"] == "unsat" and os.environ.get("VERIF_TIER") == "thorough" and os.environ.get("PYVC_CROSS", "1") == "1":
+                used = core if (core is not None and "path-independent" in r["backend"]) else ob.assumptions
+                rec["cross"] = solve.cross_check(used, ob.goal)
             if r["status"] != "unsat" or len(out["obligations"]) < 2:
                 try:
                     txt = solve.smt2_of(ob.assumptions, ob.goal)
